@@ -41,6 +41,14 @@ CLAIMED = {
         design_ref="DESIGN.md §2 C06",
         engine="p-stm",
     ),
+    "C07": dict(
+        category="exploration",
+        text="A per-run pool of 24+4 pool operators (ed25519 cold key, KES Sum6 key with all 64 evolution snapshots, BLS key + proof of possession). A registration is a record of raw bytes rewritten by 0-3 of 24 grammar mutations (every opcert field without and with re-signing by the own/other/fresh cold key; KES signature flipped, borrowed or re-made at any evolution over 7 payload variants; announced evolution e+-4, 0, 62..66, >2^32, u64::MAX, missing; vk / PoP / k1 / k2 replaced with and without KES re-certification; claimed party id altered). Section rounds: 1-5 attempts into one KeyRegWrapper::register incl. byte-exact repeats and the same key re-certified by another pool, then close(); section aggregator-verifier: the real MithrilSignerRegistrationVerifier with a harness chain observer. Oracle: every conjunct of the acceptance predicate recomputed from the submitted bytes with primitives independent of mithril (dalek on the rebuilt opcert message, KES verify over periods 0..=63, blst PoP check, Blake2b-224 + own bech32, own set of registered keys); accept => all conjuncts; recorded party id = derived id; recorded stake = distribution[derived id]. 26 required classes; 11 mutants caught; found one genuine defect (repaired).",
+        note="Trusted: ed25519-dalek, kes-summed-ed25519 (periods 0..63), blst, Blake2b; structural adversary only; production features (certification mandatory); the aggregator's store-level duplicate handling is not driven.",
+        technique="property-based testing: mutation grammar over raw registrations + independently evaluated conjunct oracle (proptest)",
+        design_ref="DESIGN.md §2 C07",
+        engine="p-common",
+    ),
     "C08": dict(
         category="exploration",
         text="The working tree's eligibility.rs is compiled into the harness (path inclusion) and compared on 20k generated (phi, stake, total, draw) tuples with an exact reference: fixed-point interval arithmetic (704 fractional bits, directed rounding, rigorous Taylor remainder) around e^x, with draws concentrated at threshold +- 2^s; 8k monotonicity pairs (stake grows / draw shrinks) at every distance down to +-1; 1k public-API worlds where the signer's claimed index set and the verifier's verdicts are compared with the reference on the real Blake2b draws. A differential against an exact reference with threshold-concentrated inputs is the strongest decision this family offers for a numeric comparison; it found and (after repair) guards a genuine defect.",
@@ -64,6 +72,14 @@ CLAIMED = {
         technique="property-based testing: mutation grammar over honest artefacts + independent per-name acceptance oracle + positive control (proptest)",
         design_ref="DESIGN.md §2 C10",
         engine="p-fs",
+    ),
+    "C11": dict(
+        category="exploration",
+        text="The honest side is the production path: DumbBlockScanner -> real CardanoChainDataImporter -> real sqlite repository; signed messages from the real signable builders; proofs from the real legacy and v2 prover services; responses assembled as the HTTP routes do. Per-run pool of 200 chains, 6 queries per format. The response JSON (incl. the decoded MKMapProof) is rewritten by 1-2 of 32 tamperings and verified against the matching certificate, the other-format certificate or a foreign-chain certificate through the documented client flow (verify(), MessageBuilder::compute_*, match_message). Oracle on acceptance: right entity type, recomputed parts equal the signed parts, block number and offset equal the signed ones, every set proof under the signed root, every reported item field-for-field in the generated chain at or below the beacon; Cardano and Mithril stake distributions by map equality. 10 mutants caught; three leaf-encoding ambiguities are carried as narrow open known findings with witnesses.",
+        note="Certificate authenticity assumed (C03); hash collision resistance; MMR internal-node confusions belong to C09. Known findings are matched by exact re-cut classes and steered around (excluded_known).",
+        technique="property-based testing: response tampering grammar over honest prover output + ground-truth oracle (proptest)",
+        design_ref="DESIGN.md §2 C11",
+        engine="p-common",
     ),
     "C12": dict(
         category="exploration",
@@ -96,6 +112,14 @@ CLAIMED = {
         technique="property-based testing with fault injection: generated hostile tar/zstd/gzip mirrors, directory-tree containment oracle, signed-manifest bookkeeping, FIFO-synchronised abort injection (proptest)",
         design_ref="DESIGN.md §2 C19",
         engine="p-fs",
+    ),
+    "C20": dict(
+        category="exploration",
+        text="The real signer (state machine, runner, certifier with the production delayer/retrier/http publisher chain, single signer, epoch service, sqlite stores on disk, upkeep, KES keys from the repository fixture) talks through the real AggregatorHttpClient to a harness-owned loopback axum aggregator that records every register-signer / register-signatures request with the chain epoch at receipt, is scripted per op (down for n requests, stale epoch settings, round closed, publish failures) and never calls the offset helpers under test (offsets hard-coded from the protocol description). 24 canonical + about 600 generated histories per quick run (3-6 epochs, <=40 ops: ticks, epoch changes, chain progress, faults, others registering subsets, restarts on the same stores; stakes and parameters change every epoch so a wrong offset changes keys) with a healing epilogue. Oracle: at most one acknowledged publication per (entity, beacon); every signature verifies under the harness-derived signer set / stakes / parameters of the registrations acknowledged in E-2 with the key registered then, and its message seed equals the harness derivation; no signature before eligibility; bounded progress after restart. 14 of 15 mutants caught (the 15th is equivalent in the domain).",
+        note="Trusted: mithril-stm/mithril-common crypto and key registration, the repository's chain/immutable/scanner/digester doubles, entity-specific message parts, phi_f = 1 (signer keys come from OsRng). Crashes happen only between cycles; faults mean 'request not processed' (no lost acknowledgements); progress clauses assume acknowledged registrations in E-2 and E-1.",
+        technique="stateful property-based testing: generated fault histories on the real signer, scripted recording fake aggregator, model-based oracle with hard-coded protocol offsets (proptest)",
+        design_ref="DESIGN.md §2 C20",
+        engine="p-signer",
     ),
 }
 
